@@ -24,17 +24,22 @@ ColsAll == {"c1", "c2", "c3", "c4"}
 ClassesRT == {"num", "mixed", "sparse"}
 ClassesCap == {"num"}
 ClassesRTProbe == {"num", "mixed", "sparse", "numstr"}
-KindsTab == [c \in ClassesRTProbe |->
+\* "bare": the field-less record - a document with nothing but its timestamp (heartbeats, `{"timestamp":T}`, `{}`)
+ClassesBare == {"num", "bare"}
+ClassesRTSim == {"num", "mixed", "sparse", "bare"}
+ClassesRTAll == ClassesRTProbe \cup {"bare"}
+KindsTab == [c \in ClassesRTAll |->
                CASE c = "num"    -> K("int", "flt", "absent", "str")
                  [] c = "mixed"  -> K("str", "int", "bool", "null")
                  [] c = "sparse" -> K("absent", "str", "str", "absent")
-                 [] c = "numstr" -> K("numstr", "absent", "absent", "str")]
-XTabRT == [c \in ClassesRTProbe |-> CASE c = "num" -> <<1>> [] c = "mixed" -> <<-1>> [] OTHER -> <<>>]
-TTabRT == [c \in ClassesRTProbe |-> CASE c = "num" -> <<"foo">> [] c = "mixed" -> <<"Foo", "bar">> [] OTHER -> <<>>]
+                 [] c = "numstr" -> K("numstr", "absent", "absent", "str")
+                 [] c = "bare"   -> K("absent", "absent", "absent", "absent")]
+XTabRT == [c \in ClassesRTAll |-> CASE c = "num" -> <<1>> [] c = "mixed" -> <<-1>> [] OTHER -> <<>>]
+TTabRT == [c \in ClassesRTAll |-> CASE c = "num" -> <<"foo">> [] c = "mixed" -> <<"Foo", "bar">> [] OTHER -> <<>>]
 
 MI(n) == [f |-> FALSE, v |-> 2 * n]          \* the integer n
 MF(h) == [f |-> TRUE, v |-> h]               \* the float h/2 (h odd)
-MTabRT == [c \in ClassesRTProbe |-> CASE c = "num" -> MI(3) [] c = "mixed" -> MF(5) [] OTHER -> MI(-1)]
+MTabRT == [c \in ClassesRTAll |-> CASE c = "num" -> MI(3) [] c = "mixed" -> MF(5) [] OTHER -> MI(-1)]
 
 \* ---- C01 late / sparse column classes (6 abstract columns).  Every class has one column it shares with
 \* some other class and one column only it has, so a block that holds several different classes has several
@@ -74,6 +79,8 @@ TTabQ == [c \in ClassesQ |-> CASE c = "n2" -> <<"foo">> [] c = "n1" -> <<"Foo", 
                                [] c = "p1" -> <<"bar", "Foo">> [] c = "p2" -> <<>> [] OTHER -> <<"foo", "BAR">>]
 KindsTabQ == [c \in ClassesQ |-> K(IF XTabQ[c] = <<>> THEN "absent" ELSE "int", "absent", "absent",
                                    IF TTabQ[c] = <<>> THEN "absent" ELSE "str")]
+\* x written as a numeric string: in a block together with number-born x the flush converts and re-indexes them
+XSTabQ == [c \in ClassesQ |-> c \in {"n1", "p2", "z"}]
 \* the measure m: integers and floats mixed, so that integers arrive after the first float of a segment
 MTabQ == [c \in ClassesQ |-> CASE c = "n2" -> MI(-2) [] c = "n1" -> MF(-3) [] c = "z" -> MI(0)
                                [] c = "p1" -> MF(5) [] c = "p2" -> MI(2) [] OTHER -> MI(10)]
@@ -82,6 +89,7 @@ ClassesQ4 == {"n1", "z", "p1", "nox"}
 
 QNumsAll == {-1, 0, 1}
 QNumsOne == {1}
+QNumsTwo == {-1, 1}
 QNumsZero == {0}
 PromoNone == {}
 PromoNe == {"ne"}
@@ -92,6 +100,7 @@ QWordsTwo == {"Foo", "bar"}
 TsOne == {"inc"}
 TsTwo == {"inc", "none"}
 TsAll == {"inc", "same", "back", "far", "none"}
+XSNone == [c \in ClassesRTAll \cup ClassesLate \cup ClassesText |-> FALSE]
 OneStream == {"ix"}
 TwoStreams == {"ix", "iy"}
 =============================================================================
